@@ -1,4 +1,8 @@
 import CssVerif.Lemmas.Media
+import CssVerif.Lemmas.MediaSetType
+import CssVerif.Lemmas.MediaSetTypeReparse
+import CssVerif.Lemmas.MediaSimL
+import CssVerif.Lemmas.MediaSimFuel
 /-!
 # C17 — media lists are canonical ordered sets; media queries survive intact
 
@@ -204,6 +208,115 @@ theorem accepted_medium_is_good (ts : List Tok) (q : MQ) (h : parseQ {} ts = .ok
     (hc : ∀ t ∈ ts, t.typ ≠ .comment) : GoodQ q :=
   parseQ_goodQ ts q h hc
 
+/-! ## T17.5 — the `mediaType` setter of a query changes the type only (code as of 7e62688) -/
+
+/-- for every query of the grammar and every known media type (any spelling): the setter returns, the new
+`mediaType` is the given string, and the sequence is that of the same query with the type replaced — a query that
+starts with an expression becomes `type and <the same expressions>`. Every expression (feature, value, order) and
+the `only` / `not` keyword are kept, and the result is again a query of the grammar: its tokens parse to it. -/
+theorem setMediaType_changes_type_only (a : QAst) (ha : a.Valid) (raising : Bool) (mt : Cps)
+    (hm : isMediaType mt = true) :
+    a.toMQ.setMediaType raising mt = ({ items := (a.withType mt).toMQ.items, mediaType := mt }, .ret ()) ∧
+    (a.withType mt).exprs = a.exprs ∧ (a.withType mt).pre = a.pre ∧
+    parseQ {} (a.withType mt).toks = .ok (a.withType mt).toMQ :=
+  ⟨setMediaType_ast a ha raising mt hm, withType_exprs a mt, withType_pre a mt,
+   parseQ_ast _ (withType_valid a mt ha hm)⟩
+
+/-- for EVERY query object (comments included, accepted or not) and every argument: comments, value objects,
+parentheses and colons — everything but IDENT tokens — are kept, in order -/
+theorem setMediaType_keeps_non_idents (q : MQ) (raising : Bool) (mt : Cps) :
+    (q.setMediaType raising mt).1.items.filter keptItem = q.items.filter keptItem :=
+  setMediaType_keeps q raising mt
+
+/-- exact effect on EVERY query object, comments included, and every known type: the new `mediaType` is the given
+string; the sequence changes at one place only — the first string item that is not `only` / `not` is replaced by the
+type when it is an IDENT, gets `type and` put in front otherwise (a parenthesis); a sequence without such an item
+gets the type in front. Everything before and after that place is untouched. -/
+theorem setMediaType_exact (q : MQ) (raising : Bool) (mt : Cps) (hm : isMediaType mt = true) :
+    (q.setMediaType raising mt).2 = .ret () ∧ (q.setMediaType raising mt).1.mediaType = mt ∧
+    (((∀ i ∈ q.items, passedItem i = true) ∧ (q.setMediaType raising mt).1.items = typeItem mt :: q.items) ∨
+     ∃ pre t post, q.items = pre ++ QItem.tok t :: post ∧ (∀ i ∈ pre, passedItem i = true) ∧
+       isSetterSkipWord t.val = false ∧
+       (q.setMediaType raising mt).1.items
+         = pre ++ (if t.typ = .ident then [typeItem mt] else [typeItem mt, setterAndItem, QItem.tok t]) ++ post) := by
+  have hc : Gen.C17Media.mediaTypes.contains (normalize mt) = true := hm
+  unfold MQ.setMediaType
+  simp only [hc, if_true, true_and]
+  cases hg : setTypeGo mt q.items with
+  | none => exact .inl ⟨setTypeGo_none mt q.items hg, rfl⟩
+  | some r => exact .inr (setTypeGo_spec mt q.items r hg)
+
+/-- for EVERY query the parser accepts — comments at any place, any white space — and every known media type: the
+sequence the setter leaves is again an accepted query: its tokens parse, stand-alone, to exactly that sequence
+(together with `setMediaType_exact`: the query with the type changed and nothing else) -/
+theorem setMediaType_result_reparses (ts : List Tok) (q : MQ) (h : parseQ {} ts = .ok q) (raising : Bool) (mt : Cps)
+    (hm : isMediaType mt = true) :
+    ∃ mt', parseQ {} (q.setMediaType raising mt).1.toks
+      = .ok { items := (q.setMediaType raising mt).1.items, mediaType := mt' } :=
+  setMediaType_reparse ts q h raising mt hm
+
+/-- an unknown media type is rejected (SyntaxErr, logged or raised) and nothing changes -/
+theorem setMediaType_unknown_rejected (q : MQ) (raising : Bool) (mt : Cps) (hm : isMediaType mt = false) :
+    q.setMediaType raising mt = (q, if raising then .raised .syntaxErr else .ret ()) := by
+  have hc : Gen.C17Media.mediaTypes.contains (normalize mt) = false := hm
+  unfold MQ.setMediaType; rw [if_neg (by rw [hc]; exact Bool.false_ne_true)]
+
+/-- regression witness of 7e62688: `(color)` with the type `tv` becomes `tv and (color)` (the code before replaced
+the parenthesis by the type) -/
+theorem fixed_setter_leading_expression :
+    ((QAst.untyped ⟨tIdent wColor, none⟩ []).toMQ.setMediaType false wTv).1.toks
+      = [typeTok wTv, setterAndTok, openTok, tIdent wColor, closeTok] := by decide
+
+/-! ## T17.6 — the generic engine of `prodparser.py` on the captured grammars IS the derived automaton
+
+`ProdEngine.engineQ` / `engineL` = the model of `ProdParser.parse` (`Choice.nextProd`, `Sequence.nextProd`, the main
+loop, the end-of-input loop, `savedTokens`, `tokenizer.push`) run on the production trees that the translator
+captures from the live `MediaQuery` / `MediaList` objects on every run (`Gen/C17Grammar.lean`). `parseQ` / `parseL`
+= the automata all theorems above are about. Token domain `Dom` = assumption A1 (a token with value `( ) : ,` has
+type CHAR). A change of a captured tree breaks `MediaSim.gq_alone` / `gq_partof` / `ml_captured` (`rfl`) and with
+them these theorems. -/
+
+/-- stand-alone query: for EVERY token list the engine on the captured tree gives the result of `parseQ` -/
+theorem engine_is_query_automaton (toks : List Tok) (hd : ∀ t ∈ toks, MediaSim.Dom t) :
+    ProdEngine.engineQ Gen.C17Grammar.mediaQueryAlone toks = parseQ {} toks :=
+  MediaSim.engineQ_eq_parseQ toks hd
+
+/-- list: for EVERY token list, from text or from a token list, the engine on the captured `MediaList` tree with the
+nested parser on the captured `_partof` query tree and both hand-back channels gives the result of `parseL` -/
+theorem engine_is_list_automaton (ft : Bool) (toks : List Tok) (hd : ∀ t ∈ toks, MediaSim.Dom t) :
+    ProdEngine.engineL Gen.C17Grammar.mediaList Gen.C17Grammar.mediaQueryPartof ft toks = parseL false ft {} toks :=
+  MediaSim.engineL_eq_parseL ft toks hd
+
+/-- so the property theorems hold for the engine itself, e.g. T17.4: a query accepted by the engine keeps every
+token of the text, in order -/
+theorem engine_query_keeps_every_token (toks : List Tok) (hd : ∀ t ∈ toks, MediaSim.Dom t) (q : MQ)
+    (h : ProdEngine.engineQ Gen.C17Grammar.mediaQueryAlone toks = .ok q) : q.toks = toks.filter notS := by
+  rw [engine_is_query_automaton toks hd] at h
+  exact query_keeps_every_token toks q h
+
+/-- … and T17.1 for the list the engine builds: filtered, it is a canonical ordered set -/
+theorem engine_list_canonical (ft : Bool) (toks : List Tok) (items : List LItem)
+    (_h : ProdEngine.engineL Gen.C17Grammar.mediaList Gen.C17Grammar.mediaQueryPartof ft toks = .ok items) :
+    CanonV (view (canon items)) := canon_canonV items
+
+/-- the fuel of the engine model suffices (`noFuel`): on the media grammars the engine answers `unsupported` only
+when the input holds a token outside the modelled domain — an EOF token or a colour function — never because one of
+its fuelled loops (`mainLoop`, `descend`, `seqLoop`, `endLoop`) ran dry -/
+theorem engine_fuel_suffices (ft : Bool) (toks : List Tok) (hd : ∀ t ∈ toks, MediaSim.Dom t) :
+    (ProdEngine.engineL Gen.C17Grammar.mediaList Gen.C17Grammar.mediaQueryPartof ft toks = .unsupported →
+      ∃ t ∈ toks, MediaSim.Outside t) ∧
+    (ProdEngine.engineQ Gen.C17Grammar.mediaQueryAlone toks = .unsupported → ∃ t ∈ toks, MediaSim.Outside t) :=
+  ⟨MediaSim.engineL_fuel_suffices ft toks hd, MediaSim.engineQ_fuel_suffices toks hd⟩
+
+/-- the token domain is inhabited by real inputs and the engine accepts them: `tv and (color), print` -/
+example :
+    let toks := [tIdent wTv, tSpace, tIdent wAnd, tSpace, tChar cOpen, tIdent wColor, tChar cClose, tChar cComma,
+      tSpace, tIdent wPrint]
+    (∀ t ∈ toks, MediaSim.Dom t) ∧
+    ∃ items, ProdEngine.engineL Gen.C17Grammar.mediaList Gen.C17Grammar.mediaQueryPartof true toks = .ok items ∧
+      items.length = 2 := by
+  refine ⟨by decide, _, rfl, rfl⟩
+
 /-! ## Former known findings, now repaired in the repository (regression witnesses) -/
 
 /-- `/*c*/ tv, print` -/
@@ -269,5 +382,18 @@ example : (QAst.typed (some (tIdent [110, 111, 116])) (tIdent wTv)
     · refine ⟨rfl, by decide, rfl, ?_⟩
       intro v hv; cases hv; exact ⟨.color, by decide⟩
     · exact ⟨rfl, by decide, rfl, by intro v hv; cases hv⟩
+
+/-- `setMediaType_result_reparses` says something: `/*c*/ (color)` is accepted and `tv` is a known type -/
+example : (∃ q, parseQ {} [tComment wComment, tSpace, tChar cOpen, tIdent wColor, tChar cClose] = .ok q) ∧
+    isMediaType wTv = true := ⟨⟨_, rfl⟩, by decide⟩
+
+/-- the hypotheses of `setMediaType_changes_type_only` are satisfiable, with a prefix and with a leading expression -/
+example : (QAst.typed (some (tIdent [110, 111, 116])) (tIdent wTv) []).Valid ∧
+    (QAst.untyped ⟨tIdent wColor, none⟩ []).Valid ∧ isMediaType wPRINT = true := by
+  refine ⟨⟨?_, rfl, by decide, ?_⟩, ⟨⟨rfl, ?_⟩, ?_⟩, by decide⟩
+  · intro p hp; cases hp; exact ⟨rfl, by decide⟩
+  · intro p hp; cases hp
+  · intro v hv; cases hv
+  · intro p hp; cases hp
 
 end CssVerif.C17
